@@ -74,12 +74,15 @@ def run(tier, seed):
     wd = common.tmpdir("c07_")
     lits = sr.source_literals()
     cases, coq, violations, samples, seen = [], [], [], [], set()
-    dist = {"h5": 0, "npy": 0, "thin>1": 0, "rwmh": 0, "hmc": 0, "single_column": 0}
+    dist = {"h5": 0, "npy": 0, "thin>1": 0, "rwmh": 0, "hmc": 0, "single_column": 0, "overwrites_earlier_file": 0}
     try:
         for i in range(n):
             t = rnd.choice([1, 2, 3, 4, 5, 6])
             cfg = sr.gen_run(rnd, thin=t, maxP=(12 if tier == "quick" else 60))
             cfg["backend"] = "npy" if i % 2 else "h5"
+            if rnd.random() < 0.4:
+                cfg["stale"] = {"seed": rnd.randrange(1000), "P": rnd.choice([4, 8, 20, 40]), "t": rnd.choice([1, 2]),
+                                "d": cfg["d"] + (1 if rnd.random() < 0.25 else 0)}
             r = sr.run_impl(cfg, wd)
             r1 = None
             if cfg["t"] > 1:
@@ -93,6 +96,7 @@ def run(tier, seed):
             dist[cfg["kind"]] += 1
             dist["thin>1"] += int(cfg["t"] > 1)
             dist["single_column"] += int(cfg["P"] == cfg["t"])
+            dist["overwrites_earlier_file"] += int(bool(cfg.get("stale")))
             if cfg["t"] > 1 and r.snaps and any(s["acc_after"] > s["acc_before"] for s in r.snaps):
                 seen.add(common.case_hash(cfg))
             if i < 2:
